@@ -214,6 +214,17 @@ def rule_s(ck, F):
     if not dnf_implies(self_v(['Reserved']), none):
         ok = False
         ck.violation('S', 'S : Reserved', where_of(b), 'SourceFormat::Reserved has dimensions')
+    # no size exactly for Reserved and for a custom format with a zero width or a zero height (every decoded picture has width, height >= 1)
+    from ..bitslice import dnf_diff, dnf_or, dnf_and
+    cf = [f.get('name') for f in F.adt('h263_rs::types::CustomPictureFormat')['variants'][0]['fields']]
+    wi, hi = cf.index('picture_width_indication'), cf.index('picture_height_indication')
+    zero = lambda i: one(('A', 'Eq(self.as6.0.%d, 0)' % i, True))
+    want_none = dnf_or(self_v(['Reserved']), dnf_and(self_v(['Extended']), dnf_or(zero(wi), zero(hi))))
+    dn = dnf_diff(want_none, none)
+    if dn is not None:
+        ok = False
+        ck.violation('S', 'S : no size', where_of(b), 'into_width_and_height returns None under [%s]; expected exactly for Reserved and for a custom format with a zero width or height (differs at %s)' % (
+            fmt_cond(none), ', '.join('%s=%s' % kv for kv in sorted(dn[0].items(), key=str))))
     if ok:
         ck.ok('S', 'into_width_and_height: %s; Extended -> its indications; Reserved -> None' % ', '.join('%s %dx%d' % (k, v[0], v[1]) for k, v in SIZES.items()), where_of(b))
 
